@@ -110,7 +110,11 @@ def rules(model: Model, tier: str) -> List[RuleResult]:
     linopalg.constructor_shapes(model, SH, tier)
     HF = RuleResult(PROP, "C01-HF", "Hermitian flag of composed operators (cg and the normal-equation fallback branch on it)", min_instances=4)
     linopalg.hermitian_flags(model, HF)
-    return [W, W2, P, Wp, T, S, B, Z, N, E, _R11, SH, HF, *_sub]
+    # solve applies A.H (the adjoint operator) in the normal-equation fall-back and in every backward: for composed operators the products
+    # of the adjoint are the formal adjoint of the forward products (shared with C11-A / C02-A)
+    ADJ = RuleResult(PROP, "C01-A", "operator algebra: composed operators' _rmv is the formal adjoint of _mv (solve applies A.H)", min_instances=4)
+    linopalg.adjoint_structure(model, ADJ)
+    return [W, W2, P, Wp, T, S, B, Z, N, E, _R11, SH, HF, ADJ, *_sub]
 
 
 # ------------------------------------------------------------------------------------------------
